@@ -38,6 +38,7 @@ PROP = dict(
                "keys and non-scalar code points are open findings with machine-checked witnesses). The tree-level reader is tied to the real "
                "parser only by the correspondence run (print -> re-evaluate on generated values, every run).",
     design_ref="DESIGN.md section 6, C12",
+    env={"HARNESS_TIMEOUT_MS": "60000"},
     watch=["rel.reprEscape", "rel.reprStr", "rel.reprString", "rel.reprOffset", "rel.reprOrderableSet", "rel.TupleNameRepr",
            "rel.formatFloat64", "rel.Number.String", "rel.Number.Format", "rel.String.Format", "rel.Bytes.Format", "rel.Array.Format",
            "rel.Dict.Format", "rel.Relation.Format", "rel.GenericSet.Format", "rel.UnionSet.Format", "rel.GenericTuple.Format",
